@@ -42,7 +42,7 @@ Print Assumptions C19_incremental_no_pending.
 Definition c19_world : world :=
   {| w_resp := [(1, WModule 1 {| wm_hash_raw := 0; wm_hash_text := 0; wm_media := MTypeScript; wm_parse_ok := true; wm_kind := MkJs;
                                  wm_deps := [({| d_text := 10; d_filelike := false; d_code := ROk 2 5; d_type := RNone;
-                                                d_dyn := false; d_deno_types := false; d_attr := 0 |}, false)];
+                                                d_dyn := false; d_deno_types := false; d_attr := 0 |}, plain_dep)];
                                  wm_tdep := None |});
                 (2, WModule 2 {| wm_hash_raw := 0; wm_hash_text := 0; wm_media := MJson; wm_parse_ok := true; wm_kind := MkJs; wm_deps := []; wm_tdep := None |})];
      w_resp_reload := []; w_http := []; w_lock := None; w_class := []; w_file := []; w_max_redirects := 10; w_wasm_ext := []; w_wasm_nodts := []; w_npm := None |}.
